@@ -481,7 +481,7 @@ class Interp:
                 return True
             if v.kind == 'pmap':
                 return self.ctx.branch(z3.Not(PMp.is_('pnil', v.t)))
-            if v.kind == 'idl':
+            if v.kind in ('idl', 'str', 'intlist'):
                 return self.ctx.branch(z3.Not(IDL.is_('inil', v.t)))
             if v.kind == 'intset':
                 try:
@@ -504,13 +504,19 @@ class Interp:
                 return self.pat_eq(a, b)
             if a.kind in ('int', 'name') and b.kind in ('int', 'name'):
                 return SV(a.t == b.t, 'bool')
-            if a.kind == b.kind and a.kind in ('bool', 'idl', 'pmap', 'intset'):
+            if a.kind == b.kind and a.kind in ('bool', 'idl', 'pmap', 'intset', 'char', 'str', 'intlist'):
                 if a.kind == 'pmap':
                     return SV(spec.expandmap(a.t) == spec.expandmap(b.t), 'bool')
                 return SV(a.t == b.t, 'bool')
             return False
         if isinstance(a, SV) or isinstance(b, SV):
             s, c = (a, b) if isinstance(a, SV) else (b, a)
+            if s.kind == 'char' and isinstance(c, str):
+                return SV(s.t == ord(c), 'bool') if len(c) == 1 else False
+            if s.kind == 'str' and isinstance(c, str):
+                return SV(s.t == idl(*[ord(x) for x in c]), 'bool')
+            if s.kind in ('char', 'str') and isinstance(c, SV) and c.kind == s.kind:
+                return SV(s.t == c.t, 'bool')
             if s.kind in ('int', 'name') and isinstance(c, (int, str)) and not isinstance(c, bool):
                 return SV(s.t == self.as_int(c), 'bool')
             if s.kind == 'int' and isinstance(c, bool):
@@ -993,6 +999,8 @@ class Interp:
             if ctor_of(t) == 'pnil':
                 return out
             raise Unsupported('iteration over a symbolic map without loop contract')
+        if isinstance(it, SV) and it.kind in ('str', 'intlist'):
+            raise Unsupported('iteration over a symbolic string/list without loop contract')
         if isinstance(it, SV) and it.kind == 'idl':
             # bounded unfolding is NOT used for proofs: symbolic-length iteration needs a loop contract
             raise Unsupported('iteration over symbolic id list without loop contract')
@@ -1047,6 +1055,8 @@ class Interp:
 
     def unpack(self, elts, v, env, module, fn):
         if isinstance(v, SV):
+            if self.unpack_sv(elts, v, env, module, fn):
+                return
             v = self.sv_to_seq(v, elts)
         seq = self.iterate(v)
         star = [i for i, e in enumerate(elts) if isinstance(e, ast.Starred)]
@@ -1068,6 +1078,17 @@ class Interp:
 
     def sv_to_seq(self, v, elts):
         raise Unsupported(f'unpacking symbolic {v.kind}')
+
+    def unpack_sv(self, elts, v, env, module, fn):
+        """`first, *rest = s` for a symbolic string / list"""
+        if v.kind in ('str', 'intlist') and len(elts) == 2 and isinstance(elts[1], ast.Starred) and not isinstance(elts[0], ast.Starred):
+            if not self.ctx.branch(z3.Not(IDL.is_('inil', v.t)), 'non-empty'):
+                raise SymRaise('ValueError', 'not enough values to unpack')
+            ek = 'char' if v.kind == 'str' else 'int'
+            self.assign(elts[0], SV(IDL.get('icons', 'ihd', v.t), ek), env, module, fn)
+            self.assign(elts[1], SV(IDL.get('icons', 'itl', v.t), v.kind), env, module, fn)
+            return True
+        return False
 
     # ---- expressions ------------------------------------------------------------------------------------------
     def eval(self, e, env, module, fn=None):
@@ -1194,6 +1215,8 @@ class Interp:
         return self.binop(e.op, self.eval(e.left, env, module, fn), self.eval(e.right, env, module, fn))
 
     def binop(self, op, l, r):
+        if isinstance(op, ast.Add) and ((isinstance(l, SV) and l.kind in ('str', 'char')) or (isinstance(r, SV) and r.kind in ('str', 'char'))):
+            return self.str_concat(l, r)
         if isinstance(l, SV) or isinstance(r, SV):
             ls = isinstance(l, SV) and l.kind == 'intset'
             if ls and isinstance(op, ast.BitOr):
@@ -1222,6 +1245,24 @@ class Interp:
             return ops[type(op)](l, r)
         except TypeError as ex:
             raise Unsupported(f'binop {type(op).__name__} on {l!r}, {r!r}') from ex
+
+    def as_str_term(self, v):
+        if isinstance(v, str):
+            return idl(*[ord(c) for c in v])
+        if isinstance(v, SV) and v.kind == 'str':
+            return v.t
+        if isinstance(v, SV) and v.kind == 'char':
+            return idl(v.t)
+        raise Unsupported(f'expected string, got {v!r}')
+
+    def str_concat(self, l, r):
+        if isinstance(r, SV) and r.kind == 'char':
+            return SV(spec.il_snoc(self.as_str_term(l), r.t), 'str')
+        if isinstance(r, str) and len(r) == 1:
+            return SV(spec.il_snoc(self.as_str_term(l), z3.IntVal(ord(r))), 'str')
+        if isinstance(r, str) and r == '':
+            return l
+        raise Unsupported('concatenation of symbolic strings')
 
     def e_Compare(self, e, env, module, fn):
         left = self.eval(e.left, env, module, fn)
@@ -1301,6 +1342,8 @@ class Interp:
             hi = self.eval(e.slice.upper, env, module, fn) if e.slice.upper is not None else None
             if isinstance(o, (list, tuple, str)) and not isinstance(lo, SV) and not isinstance(hi, SV):
                 return o[lo:hi]
+            if isinstance(o, SStr):
+                return SStr([('op', 'slice', o, repr(lo), repr(hi))])
             raise Unsupported('symbolic slice')
         k = self.eval(e.slice, env, module, fn)
         return self.getitem(o, k)
@@ -1329,6 +1372,8 @@ class Interp:
                 raise SymRaise('IndexError')
         if isinstance(o, (PyClass, Builtin)):
             return o  # generic alias e.g. frozendict[int, Pattern]
+        if isinstance(o, SStr):
+            return SStr([('op', 'index', o, repr(k))])
         raise Unsupported(f'subscript on {o!r}')
 
     def e_Attribute(self, e, env, module, fn):
@@ -1405,6 +1450,16 @@ class Interp:
             cls = getattr(fn, 'cls', None) or getattr(fn, 'cls_ctx', None)
             selfv = env.get(self.first_param(fn, env))
             return _Super(selfv, cls)
+        if isinstance(e.func, ast.Attribute) and e.func.attr == 'append' and len(e.args) == 1 and isinstance(e.func.value, (ast.Name, ast.Attribute)):
+            cur = self.eval(e.func.value, env, module, fn)
+            if isinstance(cur, SV) and cur.kind == 'intlist':
+                x = self.eval(e.args[0], env, module, fn)
+                new = SV(spec.il_snoc(cur.t, self.as_int(x)), 'intlist')
+                import copy as _copy
+                tgt = _copy.copy(e.func.value)
+                tgt.ctx = ast.Store()
+                self.assign(tgt, new, env, module, fn)
+                return None
         f = self.eval(e.func, env, module, fn)
         args = []
         for a in e.args:
@@ -1728,6 +1783,10 @@ class _SVMethod:
             o = SV(it_as_set(it, o), 'intset')
         if isinstance(o, (set, frozenset)) and n == 'add':
             raise Unsupported('in-place set.add')
+        if isinstance(o, SV) and o.kind == 'char' and n == 'isspace':
+            return SV(ISSPACE(o.t), 'bool')
+        if isinstance(o, SV) and o.kind == 'intlist' and n == 'append':
+            raise Unsupported('append on a symbolic list that is not an attribute/local (handled in e_Call)')
         if isinstance(o, SV):
             if o.kind == 'intset':
                 if n == 'union':
@@ -1785,6 +1844,8 @@ class _SVMethod:
             if any(isinstance(a, _OpaqueStr) for a in args):
                 return _OpaqueStr()
             return SStr([('fmt', o, tuple(args))])
+        if isinstance(o, SStr) and n in ('startswith', 'endswith', 'isdigit', 'isalpha', 'isspace', '__contains__'):
+            return it.ctx.fresh('bool', 'strpred')      # an unknown predicate of an unknown string: both outcomes are explored
         if isinstance(o, SStr):
             return SStr([('op', n, o) + tuple(args)])
         if isinstance(o, str):
@@ -1802,6 +1863,9 @@ class _SVMethod:
                 return _OpaqueStr() if any(not isinstance(a, str) for a in xs) else o.join(xs)
             return getattr(o, n)(*args)
         raise Unsupported(f'method {n} on {type(o).__name__}')
+
+
+ISSPACE = z3.Function('isspace', Int, Bool)    # str.isspace on one character (uninterpreted: the spec uses the same predicate)
 
 
 class _MapView:
@@ -1841,6 +1905,8 @@ def _b_tuple(it, args, kw):
 
 
 def _b_list(it, args, kw):
+    if args and isinstance(args[0], SV) and args[0].kind in ('str', 'intlist'):
+        return args[0]
     return list(it.iterate(args[0])) if args else []
 
 
@@ -1918,7 +1984,21 @@ def _b_range(it, args, kw):
 
 
 def _b_reversed(it, args, kw):
+    v = args[0]
+    if isinstance(v, SV) and v.kind in ('str', 'intlist'):
+        from . import mmnum
+        return SV(mmnum.rev_acc(v.t, IDL.mk('inil')), v.kind)
     return list(reversed(it.iterate(args[0])))
+
+
+def _b_pow(it, args, kw):
+    b, e = args[0], args[1]
+    if isinstance(b, int) and isinstance(e, int):
+        return pow(b, e)
+    if b == 5 and isinstance(e, SV) and e.kind == 'int':
+        from . import mmnum
+        return SV(mmnum.pow5(e.t), 'int')
+    raise Unsupported('pow with symbolic arguments')
 
 
 def _b_zip(it, args, kw):
@@ -1990,7 +2070,7 @@ BUILTINS = {n: Builtin(n, f) for n, f in {
     'isinstance': _b_isinstance, 'len': _b_len, 'tuple': _b_tuple, 'list': _b_list, 'set': _b_set, 'dict': _b_dict,
     'enumerate': _b_enumerate, 'sorted': _b_sorted, 'vars': _b_vars, 'any': _b_any, 'all': _b_all, 'range': _b_range,
     'reversed': _b_reversed, 'zip': _b_zip, 'str': _b_str, 'repr': _b_str, 'max': _b_max, 'print': _b_print, 'type': _b_type,
-    'frozenset': _b_set,
+    'frozenset': _b_set, 'pow': _b_pow,
 }.items()}
 for _n in ('int', 'bool', 'bytes', 'min', 'sum', 'map', 'open', 'hash', 'id', 'getattr', 'setattr', 'hasattr', 'iter', 'next'):
     BUILTINS.setdefault(_n, Builtin(_n, _b_id(_n)))
